@@ -211,6 +211,8 @@ class Exec:
 
     def getattr(self, base, attr):
         key = T('attr', (base, attr))
+        if attr in self.engine.trace_attrs:
+            self.events.append(('read', base, attr))
         if key in self.heap:
             return self.heap[key]
         if self.engine.on_attr is not None:
@@ -630,6 +632,20 @@ class Exec:
             return T('call', (name, args, ()))
         if name == 'getattr' and len(args) >= 2 and isinstance(args[1], str):
             return self.getattr(args[0], args[1])
+        if name == 'setattr' and len(args) == 3 and isinstance(args[1], str):
+            lv = T('attr', (args[0], args[1]))
+            self.heap[lv] = args[2]
+            self.events.append(('store', lv, args[2]))
+            return None
+        if name == 'sorted' and len(args) == 1 and kwargs and set(dict(kwargs)) <= {'key', 'reverse'}:
+            items = self.iterate(args[0])
+            kw = dict(kwargs)
+            key, rev = kw.get('key'), kw.get('reverse', False)
+            if items is not None and isinstance(rev, bool) and (key is None or (isinstance(key, T) and key.op in ('lambda', 'func'))):
+                keys = [x if key is None else self.apply_closure(key.args[1], (x,), ()) for x in items]
+                if all(type(k) is int for k in keys) or all(type(k) is str for k in keys):
+                    order = sorted(range(len(items)), key=lambda i: keys[i], reverse=rev)
+                    return SList([items[i] for i in order])
         if name == 'range' and 1 <= len(args) <= 2 and all(type(a) is int for a in args):
             return SList(list(range(*args)))
         if name == 'enumerate' and len(args) == 1:
@@ -924,7 +940,12 @@ class Exec:
             except Continue:
                 pass
             except Break:
+                # leaving the loop for good: the remaining elements are never seen
+                self.events.append(('loop-break', seq))
                 broke = True
+            except (Return, Raise):
+                self.events.append(('loop-exit', seq))
+                raise
             finally:
                 self.events.append(('loop-end', seq, None))
         if not broke and st.orelse:
@@ -1038,7 +1059,7 @@ class Engine:
     """Configuration of one analysis: oracle and hooks, then `paths(fn, env)`."""
 
     def __init__(self, P=None, oracle=None, on_call=None, on_attr=None, on_item=None, on_isinstance=None, on_iterate=None,
-                 resolve=None, globals_=None, max_paths=256, max_depth=4, max_unroll=3, inline_generators=False):
+                 resolve=None, globals_=None, max_paths=256, max_depth=4, max_unroll=3, inline_generators=False, trace_attrs=()):
         self.P = P
         self.oracle = oracle
         self.on_call = on_call
@@ -1054,6 +1075,7 @@ class Engine:
         self.max_decisions = 40
         self.max_steps = 20000
         self.inline_generators = inline_generators
+        self.trace_attrs = frozenset(trace_attrs)
         self.module = None
 
     def global_value(self, name, env):
@@ -1186,6 +1208,11 @@ def canon(v):
     if isinstance(v, tuple):
         return tuple(canon(a) for a in v)
     return v
+
+
+def early_exits(path, seq):
+    """Events that leave the symbolic loop over `seq` before its elements are exhausted (break / return / raise inside)."""
+    return [e for e in path.events if e[0] in ('loop-break', 'loop-exit') and e[1] == seq]
 
 
 def gname(v):
